@@ -2,12 +2,18 @@
   Model of `Memvid::doctor` (src/memvid/doctor.rs) over an abstract file condition.
 
   The concrete bytes are abstracted to what the doctor's control flow looks at:
-  * the committed frame list and the acknowledged-but-uncommitted WAL operations (data);
-  * five facts about the header / TOC / commit footer, three index conditions, one WAL fact (control).
+  * data: the committed frame list and the acknowledged-but-uncommitted WAL operations;
+  * control (`Cond`): five facts about the header / TOC / commit footer, three index conditions, one WAL fact,
+    and whether there are pending records / frames at all.
+  The control model `doctorC` runs on `Cond` only and says what happens to the data (`DataAct`);
+  `doctor` applies that to a `File`.
   `probe`, `planOf` mirror `DoctorPlanner::probe` / `compute`; `tryOpen` mirrors `Memvid::open_locked`
   (`read_toc`, `recover_toc`, header healing on recovery, `recover_wal`, the final TOC checksum check);
-  `runPhases` mirrors the phase loop of `DoctorExecutor::run` with `execute_action`,
+  `runBody` / `runOpened` mirror the phase loop of `DoctorExecutor::run` with `execute_action`,
   `apply_pending_rebuilds`, `reset_wal` and the verification step (`Memvid::verify(path, deep)`).
+
+  The model is the REPAIRED doctor (fixes/C21.diff): no `debug_assert!(wal_pending == 0)` unless `dbg`,
+  `HealHeaderPointer` only rewrites a pointer that does not reach a TOC, a forced vec rebuild keeps decodable embeddings.
 
   Black boxes (hypotheses of the correspondence, not of the theorems): decoding an undamaged TOC succeeds;
   a damaged pointer / footer / checksum never accidentally matches; no older commit footer survives in the file;
@@ -31,11 +37,8 @@ structure Frame where
 inductive Op | put (digest : Nat) | del (id : Nat)
   deriving DecidableEq, Repr
 
-structure File where
-  /-- frames of the newest table of contents -/
-  frames : List Frame
-  /-- acknowledged WAL records after the last checkpoint -/
-  pending : List Op
+/-- everything the doctor's control flow reads -/
+structure Cond where
   /-- header.footer_offset is the offset of the newest TOC -/
   hdrPtr : Bool
   /-- header.toc_checksum equals the checksum field stored in that TOC -/
@@ -49,7 +52,30 @@ structure File where
   vec : Idx
   /-- the embedded WAL region scans (header + record checksums) -/
   walOk : Bool
+  /-- acknowledged WAL records after the last checkpoint exist -/
+  hasPending : Bool
+  /-- the newest TOC lists at least one frame -/
+  hasFrames : Bool
   deriving DecidableEq, Repr
+
+structure File where
+  /-- frames of the newest table of contents -/
+  frames : List Frame
+  /-- acknowledged WAL records after the last checkpoint -/
+  pending : List Op
+  hdrPtr : Bool
+  hdrSum : Bool
+  tocSum : Bool
+  foot : Foot
+  time : Idx
+  lex : Idx
+  vec : Idx
+  walOk : Bool
+  deriving DecidableEq, Repr
+
+def File.cond (f : File) : Cond :=
+  { hdrPtr := f.hdrPtr, hdrSum := f.hdrSum, tocSum := f.tocSum, foot := f.foot, time := f.time, lex := f.lex, vec := f.vec,
+    walOk := f.walOk, hasPending := !f.pending.isEmpty, hasFrames := !f.frames.isEmpty }
 
 structure Opts where
   rebuildTime : Bool
@@ -61,6 +87,9 @@ structure Opts where
 
 def Opts.default : Opts := ⟨false, false, false, false, false⟩
 
+/-- some rebuild or vacuum is requested -/
+def Opts.forced (o : Opts) : Bool := o.rebuildTime || o.rebuildLex || o.rebuildVec || o.vacuum
+
 /-! ### data: WAL replay -/
 
 def applyOp (fs : List Frame) : Op → List Frame
@@ -69,23 +98,35 @@ def applyOp (fs : List Frame) : Op → List Frame
 
 def replay (fs : List Frame) (ops : List Op) : List Frame := ops.foldl applyOp fs
 
-/-- what a reader is entitled to: the active frames (id, content) of the committed list -/
+/-- what a reader is entitled to: the active frames (id, content) -/
 def activeOf (fs : List Frame) : List (Nat × Nat) := (fs.filter (·.active)).map fun f => (f.id, f.digest)
 
 /-- the acknowledged view of a file: committed frames plus acknowledged pending operations -/
 def logical (f : File) : List (Nat × Nat) := activeOf (replay f.frames f.pending)
 
+/-- what one doctor run does to the data -/
+inductive DataAct
+  | keep       -- frames and pending records untouched
+  | replayed   -- pending records applied to the frame list (open's `recover_wal`), log empty
+  | dropped    -- WAL region zeroed: pending records discarded
+  deriving DecidableEq, Repr
+
+def applyData : DataAct → List Frame × List Op → List Frame × List Op
+  | .keep, d => d
+  | .replayed, (fs, ps) => (replay fs ps, [])
+  | .dropped, (fs, _) => (fs, [])
+
 /-! ### `read_toc` / `recover_toc` -/
 
 /-- `CommitFooter::decode` + `hash_matches` on the bytes behind the newest TOC -/
-def footerValid (f : File) : Bool := f.foot == .ok
+def footerValid (c : Cond) : Bool := c.foot == .ok
 
 /-- `read_toc(file, header)` -/
-def readToc (f : File) : Bool := f.hdrPtr && footerValid f
+def readToc (c : Cond) : Bool := c.hdrPtr && footerValid c
 
 /-- `recover_toc(file, Some(header.footer_offset))`: last valid footer, else the TOC at the hinted offset
     (no checksum validation on that path), else the legacy scan (never matches a file that ends in a footer) -/
-def recoverToc (f : File) : Bool := footerValid f || f.hdrPtr
+def recoverToc (c : Cond) : Bool := footerValid c || c.hdrPtr
 
 /-! ### probe and plan -/
 
@@ -104,21 +145,16 @@ structure Probe where
 
 def Probe.none : Probe := ⟨false, false, false, false, false, false, false, false, false, false⟩
 
-def probe (o : Opts) (f : File) : Probe :=
-  if readToc f then
-    { tocFound := true, recovered := false, ptrMismatch := false,
-      sumMismatch := !f.hdrSum, tocSumBad := !f.tocSum,
-      walPending := f.walOk && !f.pending.isEmpty, walBad := !f.walOk,
-      needsTime := f.time == .corrupt || (f.time == .missing && !f.frames.isEmpty),
-      needsLex := f.lex == .missing && o.rebuildLex,
-      needsVec := f.vec == .corrupt || (f.vec == .missing && o.rebuildVec) }
-  else if recoverToc f then
-    { tocFound := true, recovered := true, ptrMismatch := !f.hdrPtr,
-      sumMismatch := !f.hdrSum, tocSumBad := !f.tocSum,
-      walPending := f.walOk && !f.pending.isEmpty, walBad := !f.walOk,
-      needsTime := f.time == .corrupt || (f.time == .missing && !f.frames.isEmpty),
-      needsLex := f.lex == .missing && o.rebuildLex,
-      needsVec := f.vec == .corrupt || (f.vec == .missing && o.rebuildVec) }
+/-- `DoctorPlanner::probe` (+ `inspect_time_index`, `inspect_lex_index`, `inspect_vec_index`) -/
+def probe (o : Opts) (c : Cond) : Probe :=
+  if readToc c || recoverToc c then
+    { tocFound := true, recovered := !readToc c, ptrMismatch := !readToc c && !c.hdrPtr,
+      sumMismatch := !c.hdrSum, tocSumBad := !c.tocSum,
+      walPending := c.walOk && c.hasPending, walBad := !c.walOk,
+      needsTime := c.time == .corrupt || (c.time == .missing && c.hasFrames),
+      -- Tantivy segments are never inspected; without any lex index the option alone asks for one
+      needsLex := c.lex == .missing && o.rebuildLex,
+      needsVec := c.vec == .corrupt || (c.vec == .missing && o.rebuildVec) }
   else Probe.none
 
 inductive Phase | headerHealing | walReplay | vacuum | indexRebuild | finalize | verify
@@ -131,7 +167,7 @@ inductive Action
 
 abbrev Plan := List (Phase × List Action)
 
-def opt (b : Bool) (x : α) : List α := if b then [x] else []
+def opt {α : Type} (b : Bool) (x : α) : List α := if b then [x] else []
 
 /-- `DoctorPlanner::compute` after the probe (phase order: header, wal, vacuum, index, finalize, verify) -/
 def planOf (o : Opts) (p : Probe) : Plan :=
@@ -155,42 +191,37 @@ def Plan.noop (pl : Plan) : Bool := pl.all fun ph => ph.2.all fun a => a == .dee
 inductive OpenErr | invalidToc | checksum | wal
   deriving DecidableEq, Repr
 
-/-- the handle the executor works on: the file as open left it, and whether WAL replay committed a newer TOC
+/-- the handle the executor works on: the file as open left it, whether WAL replay committed a newer TOC
     (then the plan's header targets are stale) -/
 structure Mem where
-  file : File
+  c : Cond
   moved : Bool
   /-- the header's checksum equals the value the plan wants to write (`HealTocChecksum.expected`) -/
   sumIsTarget : Bool
   deriving DecidableEq, Repr
 
 /-- everything a full `rebuild_indexes` + `rewrite_toc_footer` + `persist_header` makes consistent -/
-def rewritten (f : File) : File :=
-  { f with hdrPtr := true, hdrSum := true, tocSum := true, foot := .ok, time := .ok }
+def rewritten (c : Cond) : Cond :=
+  { c with hdrPtr := true, hdrSum := true, tocSum := true, foot := .ok, time := .ok }
 
-def tryOpen (f : File) : Except (OpenErr × File) Mem :=
+def tryOpen (c : Cond) : Except (OpenErr × Cond) Mem :=
   -- read_toc, else recover_toc and heal the header when it differs from what was recovered
-  let r : Option (File × Bool) :=
-    if readToc f then some (f, false)
-    else if recoverToc f then some ({ f with hdrPtr := true, hdrSum := true }, true)
-    else none
-  match r with
-  | none => .error (.invalidToc, f)
-  | some (f1, healed) =>
-    if !f1.walOk then .error (.wal, f1)
-    else if !f1.pending.isEmpty then
-      -- recover_wal: apply_records, rebuild_indexes (new time index, TOC, footer, header), checkpoint
-      .ok { file := rewritten { f1 with frames := replay f1.frames f1.pending, pending := [] },
-            moved := true, sumIsTarget := false }
-    else if !f1.tocSum then .error (.checksum, f1)
-    else .ok { file := f1, moved := false, sumIsTarget := healed || f.hdrSum }
+  if !(readToc c || recoverToc c) then .error (.invalidToc, c) else
+  let healed := !readToc c
+  let c1 : Cond := if healed then { c with hdrPtr := true, hdrSum := true } else c
+  if !c1.walOk then .error (.wal, c1)
+  else if c1.hasPending then
+    -- recover_wal: apply_records, rebuild_indexes (new time index, TOC, footer, header), checkpoint
+    .ok { c := { rewritten c1 with hasPending := false, hasFrames := true }, moved := true, sumIsTarget := false }
+  else if !c1.tocSum then .error (.checksum, c1)
+  else .ok { c := c1, moved := false, sumIsTarget := healed || c.hdrSum }
 
 /-- `aggressive_header_repair`: the scan returns the offset of the commit FOOTER (file end − 56) when its magic is
     intact and writes that into header.footer_offset — which must hold the TOC offset: the pointer stays wrong -/
-def aggressiveRepair (f : File) : Bool × File := (f.foot != .magic, { f with hdrPtr := false })
+def aggressiveRepair (c : Cond) : Bool × Cond := (c.foot != .magic, { c with hdrPtr := false })
 
 /-- `try_recover_from_wal_corruption`: zero the WAL region, reset the header's WAL fields -/
-def zeroWal (f : File) : File := { f with pending := [], walOk := true }
+def zeroWal (c : Cond) : Cond := { c with hasPending := false, walOk := true }
 
 /-! ### executor -/
 
@@ -220,14 +251,14 @@ structure Exec where
 /-- `execute_action`; true = the action reported Executed -/
 def execAction (e : Exec) : Action → Exec × Bool
   | .healHeaderPointer =>
-    -- repaired code: only when the header does not already reach a TOC
-    if e.mem.moved && !readToc e.mem.file then
-      ({ e with mem := { e.mem with file := { e.mem.file with hdrPtr := false } } }, true)
+    -- repaired code: only when the header differs from the planned target AND does not already reach a TOC
+    if e.mem.moved && !readToc e.mem.c then
+      ({ e with mem := { e.mem with c := { e.mem.c with hdrPtr := false } } }, true)
     else (e, false)
   | .healTocChecksum =>
     if !e.mem.sumIsTarget then
       -- header.toc_checksum := the checksum the probe read; right unless replay committed a newer TOC
-      ({ e with mem := { e.mem with sumIsTarget := true, file := { e.mem.file with hdrSum := !e.mem.moved } } }, true)
+      ({ e with mem := { e.mem with sumIsTarget := true, c := { e.mem.c with hdrSum := !e.mem.moved } } }, true)
     else (e, false)
   | .replayWal => (e, true)
   | .rebuildTime => ({ e with pTime := true }, true)
@@ -235,34 +266,35 @@ def execAction (e : Exec) : Action → Exec × Bool
   | .rebuildVec => ({ e with pVec := true }, true)
   | .vacuumCompaction =>
     -- commit (nothing pending), compaction of active payloads, rebuild_indexes from scratch
-    ({ e with mem := { e.mem with file := { rewritten e.mem.file with
-        lex := if e.mem.file.lex == .missing then .missing else .ok } } }, true)
-  | .recomputeToc => ({ e with mem := { e.mem with file := { e.mem.file with hdrPtr := true, hdrSum := true, tocSum := true, foot := .ok } } }, true)
+    ({ e with mem := { e.mem with c := { rewritten e.mem.c with
+        lex := if e.mem.c.lex == .missing then .missing else .ok } } }, true)
+  | .recomputeToc =>
+    ({ e with mem := { e.mem with c := { e.mem.c with hdrPtr := true, hdrSum := true, tocSum := true, foot := .ok } } }, true)
   | .updateHeader => (e, true)
   | .deepVerify => (e, false)
 
 /-- `apply_pending_rebuilds` -/
 def applyRebuilds (e : Exec) : Exec :=
-  let f := e.mem.file
-  let f := rewritten { f with
-    lex := if e.pLex then .ok else f.lex,
-    -- the vec manifest and the in-memory index are dropped before rebuilding: stored embeddings are gone
-    vec := if e.pVec then .missing else f.vec }
-  { mem := { e.mem with file := f }, pTime := false, pLex := false, pVec := false }
+  let c := e.mem.c
+  let c := rewritten { c with
+    lex := if e.pLex then .ok else c.lex,
+    -- repaired code: the rebuilt index keeps the embeddings of a decodable index; an undecodable one has none to keep
+    vec := if e.pVec then (if c.vec == .ok then .ok else .missing) else c.vec }
+  { mem := { e.mem with c := c }, pTime := false, pLex := false, pVec := false }
 
 /-- `Memvid::verify(path, deep)`: none = it cannot open the file (Err), some b = overall Passed? -/
-def verify (f : File) : Option Bool :=
-  if !(footerValid f && f.tocSum) then none
-  else some (f.time != .corrupt && f.pending.isEmpty && f.walOk)
+def verify (c : Cond) : Option Bool :=
+  if !(footerValid c && c.tocSum) then none
+  else some (c.time != .corrupt && !c.hasPending && c.walOk)
+
+def runActions (e : Exec) (as : List Action) : Exec × Bool :=
+  as.foldl (fun (acc : Exec × Bool) a => let r := execAction acc.1 a; (r.1, acc.2 || r.2)) (e, false)
 
 def runPhase (e : Exec) (ph : Phase × List Action) : Exec × PStat :=
-  let (e1, anyExec) := ph.2.foldl (fun (acc : Exec × Bool) a => let (e', x) := execAction acc.1 a; (e', acc.2 || x)) (e, false)
-  match ph.1 with
-  | .indexRebuild =>
-    if e1.pTime || e1.pLex || e1.pVec then (applyRebuilds e1, .executed) else (e1, if anyExec then .executed else .skipped)
-  | .finalize =>
-    if e1.pTime || e1.pLex || e1.pVec then (applyRebuilds e1, .executed) else (e1, if anyExec then .executed else .skipped)
-  | _ => (e1, if anyExec then .executed else .skipped)
+  let r := runActions e ph.2
+  let e1 := r.1
+  if (ph.1 == .indexRebuild || ph.1 == .finalize) && (e1.pTime || e1.pLex || e1.pVec) then (applyRebuilds e1, .executed)
+  else (e1, if r.2 then .executed else .skipped)
 
 /-- phases before Verify -/
 def runBody (e : Exec) : Plan → Exec × List (Phase × PStat)
@@ -270,52 +302,67 @@ def runBody (e : Exec) : Plan → Exec × List (Phase × PStat)
   | ph :: rest =>
     if ph.1 == .verify then (e, [])
     else
-      let (e1, st) := runPhase e ph
-      let (e2, sts) := runBody e1 rest
-      (e2, (ph.1, st) :: sts)
+      let r1 := runPhase e ph
+      let r2 := runBody r1.1 rest
+      (r2.1, (ph.1, r1.2) :: r2.2)
+
+/-- result of the control model: outcome, resulting condition, what happened to the data -/
+structure CResult where
+  out : Outcome
+  c : Cond
+  act : DataAct
+  deriving DecidableEq, Repr
+
+/-- `DoctorExecutor::run` once the memory is open (`act0` = what happened to the data before) -/
+def runOpened (pl : Plan) (act0 : DataAct) (m : Mem) : CResult :=
+  let r := runBody ⟨m, false, false, false⟩ pl
+  let act := if m.moved then DataAct.replayed else act0
+  -- Verify phase: reset_wal, close, Memvid::verify(path, deep)
+  let c := { r.1.mem.c with hasPending := false, walOk := true }
+  match verify c with
+  | none => ⟨.error, c, act⟩
+  | some true => ⟨.report (if pl.noop then .clean else .healed) .none (r.2 ++ [(.verify, .executed)]), c, act⟩
+  | some false =>
+    -- overall failure: the header saved after opening is written back
+    ⟨.report .failed .none (r.2 ++ [(.verify, .failed)]), { c with hdrPtr := m.c.hdrPtr, hdrSum := m.c.hdrSum }, act⟩
+
+/-- control model of `Memvid::doctor(path, options)`.  `dbg` = the build keeps
+    `debug_assert!(probe.wal_pending == 0)` in the planner (the unrepaired tree, debug profile). -/
+def doctorC (dbg : Bool) (o : Opts) (c : Cond) : CResult :=
+  let p := probe o c
+  if dbg && p.walPending then ⟨.panic, c, .keep⟩ else
+  let pl := planOf o p
+  if o.dryRun then ⟨.report (if pl.noop then .clean else .planOnly) .none [], c, .keep⟩ else
+  if p.walBad then
+    match tryOpen (zeroWal c) with
+    | .ok m => runOpened pl .dropped m
+    | .error (_, c1) => ⟨.report .failed .walRecovery [], c1, .dropped⟩
+  else
+    match tryOpen c with
+    | .ok m => runOpened pl .keep m
+    | .error (.invalidToc, c1) =>
+      let r := aggressiveRepair c1
+      if !r.1 then ⟨.report .failed .repairFailed [], c1, .keep⟩ else
+      match tryOpen r.2 with
+      | .ok m => runOpened pl .keep m
+      | .error (_, c3) => ⟨.report .failed .repairedStillCorrupt [], c3, .keep⟩
+    | .error (_, c1) => ⟨.report .failed .openOther [], c1, .keep⟩
 
 structure Result where
   out : Outcome
   file : File
   deriving DecidableEq, Repr
 
-/-- `DoctorExecutor::run` once the memory is open -/
-def runOpened (pl : Plan) (m : Mem) : Result :=
-  let (e, sts) := runBody ⟨m, false, false, false⟩ pl
-  -- Verify phase: reset_wal, close, Memvid::verify(path, deep)
-  let f := { e.mem.file with pending := [], walOk := true }
-  match verify f with
-  | none => ⟨.error, f⟩
-  | some true => ⟨.report (if pl.noop then .clean else .healed) .none (sts ++ [(.verify, .executed)]), f⟩
-  | some false =>
-    -- overall failure: the header saved after opening is written back
-    ⟨.report .failed .none (sts ++ [(.verify, .failed)]), { f with hdrPtr := m.file.hdrPtr, hdrSum := m.file.hdrSum }⟩
-
-/-- `Memvid::doctor(path, options)`.  `dbg` = the build keeps `debug_assert!(probe.wal_pending == 0)` in the planner
-    (the unrepaired tree, debug profile). -/
+/-- `Memvid::doctor(path, options)` on a file -/
 def doctor (dbg : Bool) (o : Opts) (f : File) : Result :=
-  let p := probe o f
-  if dbg && p.walPending then ⟨.panic, f⟩ else
-  let pl := planOf o p
-  if o.dryRun then ⟨.report (if pl.noop then .clean else .planOnly) .none [], f⟩ else
-  if p.walBad then
-    match tryOpen (zeroWal f) with
-    | .ok m => runOpened pl m
-    | .error (_, f1) => ⟨.report .failed .walRecovery [], f1⟩
-  else
-    match tryOpen f with
-    | .ok m => runOpened pl m
-    | .error (.invalidToc, f1) =>
-      let (found, f2) := aggressiveRepair f1
-      if !found then ⟨.report .failed .repairFailed [], f1⟩ else
-      match tryOpen f2 with
-      | .ok m => runOpened pl m
-      | .error (_, f3) => ⟨.report .failed .repairedStillCorrupt [], f3⟩
-    | .error (_, f1) => ⟨.report .failed .openOther [], f1⟩
+  let r := doctorC dbg o f.cond
+  let d := applyData r.act (f.frames, f.pending)
+  ⟨r.out, { frames := d.1, pending := d.2, hdrPtr := r.c.hdrPtr, hdrSum := r.c.hdrSum, tocSum := r.c.tocSum, foot := r.c.foot,
+            time := r.c.time, lex := r.c.lex, vec := r.c.vec, walOk := r.c.walOk }⟩
 
-/-- `Memvid::open` succeeds and leaves nothing to repair -/
-def opens (f : File) : Bool := match tryOpen f with | .ok _ => true | .error _ => false
+/-- `Memvid::open` succeeds -/
+def opens (c : Cond) : Bool := match tryOpen c with | .ok _ => true | .error _ => false
 
-def verifyPassed (f : File) : Bool := verify f == some true
+def verifyPassed (c : Cond) : Bool := verify c == some true
 
 end Mv.Doctor
